@@ -262,6 +262,31 @@ where
             let mut c = 0;
             let _o: GenericArray<P, N> = a.zip(b, |_x, y| { y.touch(); boom(&mut c); y });
         });
+        // one operand borrowed and plain, the other owned and droppable (only the owned side's drop glue matters)
+        rep.case("C04", "zip(& u32, own P)", n, k, true, || {
+            let a: GenericArray<u32, N> = GenericArray::generate(|i| i as u32);
+            let b = arr::<N>();
+            let mut c = 0;
+            let _o: GenericArray<P, N> = (&a).zip(b, |_x, y| { y.touch(); boom(&mut c); y });
+        });
+        rep.case("C04", "zip(&mut u32, own P)", n, k, true, || {
+            let mut a: GenericArray<u32, N> = GenericArray::generate(|i| i as u32);
+            let b = arr::<N>();
+            let mut c = 0;
+            let _o: GenericArray<P, N> = (&mut a).zip(b, |_x, y| { y.touch(); boom(&mut c); y });
+        });
+        rep.case("C04", "zip(own P, & u32)", n, k, true, || {
+            let a = arr::<N>();
+            let b: GenericArray<u32, N> = GenericArray::generate(|i| i as u32);
+            let mut c = 0;
+            let _o: GenericArray<P, N> = a.zip(&b, |x, _y| { x.touch(); boom(&mut c); x });
+        });
+        rep.case("C04", "zip(own P, &mut u32)", n, k, true, || {
+            let a = arr::<N>();
+            let mut b: GenericArray<u32, N> = GenericArray::generate(|i| i as u32);
+            let mut c = 0;
+            let _o: GenericArray<P, N> = a.zip(&mut b, |x, _y| { x.touch(); boom(&mut c); x });
+        });
         rep.case("C04", "zip(Box,Box)", n, k, true, || {
             let a: Box<GenericArray<P, N>> = Box::new(arr::<N>());
             let b: Box<GenericArray<P, N>> = Box::new(arr::<N>());
